@@ -4,7 +4,10 @@ package main
 import (
 	"fmt"
 	"math/big"
+	"strconv"
 	"strings"
+	"sync"
+	"sync/atomic"
 )
 
 type SortKind int
@@ -68,11 +71,36 @@ type T struct {
 	id     int
 }
 
-var termCounter int
+var termCounter int64
+var hcTable sync.Map // structural key -> *T (hash-consing: structurally equal terms are pointer-equal)
 
-func mk(op string, sort Sort, args ...*T) *T {
-	termCounter++
-	return &T{Op: op, Sort: sort, Args: args, id: termCounter}
+func hcKey(op, name string, sort Sort, args []*T) string {
+	var sb strings.Builder
+	sb.WriteString(op)
+	sb.WriteByte('|')
+	sb.WriteString(name)
+	sb.WriteByte('|')
+	sb.WriteString(strconv.Itoa(int(sort.K)*1000 + sort.W))
+	for _, a := range args {
+		sb.WriteByte('|')
+		sb.WriteString(strconv.FormatInt(int64(a.id), 36))
+	}
+	return sb.String()
+}
+
+func intern(key string, t *T) *T {
+	if old, ok := hcTable.Load(key); ok {
+		return old.(*T)
+	}
+	t.id = int(atomic.AddInt64(&termCounter, 1))
+	act, _ := hcTable.LoadOrStore(key, t)
+	return act.(*T)
+}
+
+func mk(op string, sort Sort, args ...*T) *T { return mkN(op, "", sort, args...) }
+
+func mkN(op, name string, sort Sort, args ...*T) *T {
+	return intern(hcKey(op, name, sort, args), &T{Op: op, Name: name, Sort: sort, Args: args})
 }
 
 func mask(w int) uint64 {
@@ -83,9 +111,8 @@ func mask(w int) uint64 {
 }
 
 func BVConst(v uint64, w int) *T {
-	t := mk("const", BVS(w))
-	t.BV = v & mask(w)
-	return t
+	v &= mask(w)
+	return intern("cbv|"+strconv.Itoa(w)+"|"+strconv.FormatUint(v, 16), &T{Op: "const", Sort: BVS(w), BV: v})
 }
 func BoolConst(b bool) *T {
 	if b {
@@ -98,25 +125,13 @@ var tTrue = &T{Op: "const", Sort: BoolS, B: true, id: -1}
 var tFalse = &T{Op: "const", Sort: BoolS, B: false, id: -2}
 
 func StrConst(s string) *T {
-	t := mk("const", StrS)
-	t.Str = s
-	return t
+	return intern("cstr|"+s, &T{Op: "const", Sort: StrS, Str: s})
 }
-func IntConst(v int64) *T {
-	t := mk("const", IntS)
-	t.Int = big.NewInt(v)
-	return t
-}
+func IntConst(v int64) *T { return IntConstBig(big.NewInt(v)) }
 func IntConstBig(v *big.Int) *T {
-	t := mk("const", IntS)
-	t.Int = new(big.Int).Set(v)
-	return t
+	return intern("cint|"+v.String(), &T{Op: "const", Sort: IntS, Int: new(big.Int).Set(v)})
 }
-func Var(name string, s Sort) *T {
-	t := mk("var", s)
-	t.Name = name
-	return t
-}
+func Var(name string, s Sort) *T { return mkN("var", name, s) }
 
 func (t *T) IsConst() bool { return t.Op == "const" }
 func (t *T) IsTrue() bool  { return t.Op == "const" && t.Sort.K == SBool && t.B }
@@ -241,12 +256,8 @@ func (t *T) String() string {
 	if t == nil {
 		return "<nil>"
 	}
-	if t.s != "" {
-		return t.s
-	}
 	p := newPrinter()
-	t.s = p.str(t)
-	return t.s
+	return p.str(t)
 }
 
 // ---------- smart constructors ----------
@@ -417,9 +428,7 @@ func Int2BV(n *T, w int) *T {
 	if n.IsConst() {
 		return BVConst(new(big.Int).And(n.Int, new(big.Int).SetUint64(mask(w))).Uint64(), w)
 	}
-	t := mk(fmt.Sprintf("(_ int2bv %d)", w), BVS(w), n)
-	t.Name = "int2bv"
-	return t
+	return mkN(fmt.Sprintf("(_ int2bv %d)", w), "int2bv", BVS(w), n)
 }
 func intBacked(t *T) (*T, bool) {
 	if t.Sort.K != SBV {
@@ -694,11 +703,7 @@ func CodeStr(b *T) *T {
 	return mk("str.from_code", StrS, mk("bv2nat", IntS, b))
 }
 
-func InRe(s *T, re string) *T {
-	t := mk("str.in_re", BoolS, s)
-	t.Name = re
-	return t
-}
+func InRe(s *T, re string) *T { return mkN("str.in_re", re, BoolS, s) }
 
 // ---------- bit-vectors ----------
 func bvFold(op string, a, b uint64, w int, signed bool) (uint64, bool, bool) {
@@ -911,8 +916,4 @@ func Select(arr, k *T) *T {
 func Store(arr, k, v *T) *T { return mk("store", ArrS, arr, k, v) }
 
 // UF application
-func UF(name string, sort Sort, args ...*T) *T {
-	t := mk("uf", sort, args...)
-	t.Name = name
-	return t
-}
+func UF(name string, sort Sort, args ...*T) *T { return mkN("uf", name, sort, args...) }
